@@ -86,6 +86,9 @@ def device_case(draw):
     if draw(st.booleans()):
         jitter[0] = 0
     t0 = draw(st.sampled_from([0, 0, 7000]))
+    if draw(st.integers(0, 3)) == 0:
+        # shortly before the 32-bit millis() wrap: run on the build whose `unsigned long` is 32 bits wide, as on the board
+        t0 = (2**32 - draw(st.sampled_from([1, 2, 50, 500, 3000, sp + 1, 2 * sp + 7]))) * 1000
     return {"src": "\n".join(lines) + "\n", "cols": cols, "rows": rows, "anims": anims, "n": n, "jitter": jitter, "t0_us": t0, "bound": b,
             "nt": any(len(a["text"]) > cols for a in anims) or any(a["speed"] > 0 for a in anims) or len(anims) > 1, "branched": branched}
 
@@ -98,7 +101,7 @@ def eval_device(case):
         return "rejected:" + str(e)[:40], []
     with fb.Workdir("c18") as wd:
         try:
-            exe = fb.build(cpp, wd)
+            exe = fb.build(fb.avr_ulong(cpp) if case["t0_us"] >= 2**31 * 1000 else cpp, wd)
         except fb.CompileError as e:
             return "FAIL", [mk("compile-error", "compiles", str(e)[:300])]
         trace = fb.run(exe, case["n"], fb.make_tape(t0_us=case["t0_us"], jitter=case["jitter"], budget=2_000_000), wd, timeout=300)
